@@ -84,10 +84,6 @@ class Store(object):
 # ---------------------------------------------------------------------------------------------
 # contracts
 # ---------------------------------------------------------------------------------------------
-def outcome(r):
-    return [r[0], r[1]] if r[0] == "ok" else [r[0], r[1]]
-
-
 def check_string(col, st, s, pads):
     """all is_url clauses on one string"""
     R = []
@@ -139,12 +135,14 @@ def check_string(col, st, s, pads):
 TRIM = set("!?#\"$%&'()*+,-.:;<=>@[\\]^_`{|}~\u2026\u2019\u2018\u201b\u00ab\u00bb\u201e\u201f\u201c\u201d\u2010\u2012\u2013\u2014\u2015\u2212\u2011\u2043\u060c\u3001")
 
 
-def text_tag(text, y):
+def text_tag(text, y, prev=None):
     """triage hint only (never decides a verdict)"""
     if not y:
         return "empty"
-    if "](" + y in text:
+    if prev and "[" + prev + "](" + y in text:
         return "md-target"
+    if "](" in text and "[" in text and not ref.carries_protocol(y):
+        return "md-half"
     if ref.has_surrounding_ws(y):
         return "unicode-space"
     i = text.find(y)
@@ -162,7 +160,9 @@ def check_text(col, st, text):
         return None
     ys = r[1]
     pos = 0
+    prev = cur = None
     for y in ys:
+        prev, cur = cur, y
         col.count("yield-non-empty")
         if not isinstance(y, str) or y == "":
             st.add("yield-non-empty", "empty", FN_TX, {"text": text}, jsonable(ys), "every yielded URL is a non-empty string", len(text))
@@ -170,32 +170,32 @@ def check_text(col, st, text):
         tag = None
         col.count("yield-no-surrounding-whitespace")
         if ref.has_surrounding_ws(y):
-            tag = tag or text_tag(text, y)
+            tag = tag or text_tag(text, y, prev)
             st.add("yield-no-surrounding-whitespace", tag, FN_TX, {"text": text}, {"yields": ys, "offending": y},
                    "no yielded URL starts or ends with whitespace", len(text))
         col.count("yield-substring-of-text")
         if y not in text:
-            tag = tag or text_tag(text, y)
+            tag = tag or text_tag(text, y, prev)
             st.add("yield-substring-of-text", tag, FN_TX, {"text": text}, {"yields": ys, "offending": y},
                    "every yielded URL is a substring of the text", len(text))
         else:
             col.count("yields-in-order-of-appearance")
             idx = text.find(y, pos)
             if idx < 0:
-                tag = tag or text_tag(text, y)
+                tag = tag or text_tag(text, y, prev)
                 st.add("yields-in-order-of-appearance", tag, FN_TX, {"text": text}, {"yields": ys, "offending": y},
                        "occurrences can be chosen with non-decreasing start offsets", len(text))
             else:
                 pos = idx
         col.count("yield-carries-protocol")
         if not ref.carries_protocol(y):
-            tag = tag or text_tag(text, y)
+            tag = tag or text_tag(text, y, prev)
             st.add("yield-carries-protocol", tag, FN_TX, {"text": text}, {"yields": ys, "offending": y},
                    "every yielded URL starts with a protocol (scheme:// or //)", len(text))
         col.count("yield-accepted-by-is-url")
         q = call(is_url, y, require_protocol=True, only_http_https=False)[:2]
         if q != OK_TRUE:
-            tag = tag or text_tag(text, y)
+            tag = tag or text_tag(text, y, prev)
             st.add("yield-accepted-by-is-url", tag, FN_TX, {"text": text},
                    {"yields": ys, "offending": y, "is_url": list(q)},
                    "is_url(y, require_protocol=True, only_http_https=False) is True for every yielded y", len(text))
@@ -460,6 +460,38 @@ def emit(col, stores, only_clause=None):
         col.notes.append({"tld_oracle_selfcheck": ref.SELFCHECK})
 
 
+def replay_is_url(col, st, clause, inp):
+    """re-check one is_url witness under exactly the options recorded in it (all 16 when none recorded)"""
+    s = inp["string"] if isinstance(inp, dict) else inp
+    opts = [inp["options"]] if isinstance(inp, dict) and "options" in inp else OPTS
+    for o in opts:
+        o = {n: bool(o[n]) for n in OPT_NAMES}
+        r = call(is_url, s, **o)[:2]
+        if clause in CLAUSE_MONO.values():
+            name = [n for n in OPT_NAMES if CLAUSE_MONO[n] == clause][0]
+            if o[name] != STRICT[name]:
+                continue
+            rel = dict(o)
+            rel[name] = not STRICT[name]
+            q = call(is_url, s, **rel)[:2]
+            col.count(clause)
+            if r == OK_TRUE and q != OK_TRUE:
+                st.add(clause, name, FN_IS, inp, {"strict": list(r), "relaxed": list(q)}, "accepted with the option relaxed", len(s))
+        elif clause == "ignores-surrounding-whitespace":
+            pads = [tuple(inp["pad"])] if isinstance(inp, dict) and "pad" in inp else PADS
+            for l, rr in pads:
+                q = call(is_url, l + s + rr, **o)[:2]
+                col.count(clause)
+                if q != r:
+                    st.add(clause, "pad", FN_IS, inp, {"padded": list(q), "bare": list(r)}, "same answer", len(s))
+        elif clause == "tld-aware-known-tld":
+            if o["tld_aware"] and r == OK_TRUE:
+                col.count(clause)
+                cx = ref.tld_aware_counterexample(s)
+                if cx is not None:
+                    st.add(clause, "replay", FN_IS, inp, True, "False: %r" % (cx,), len(s))
+
+
 def replay(a, col):
     rp = json.load(open(a.replay))
     inp = rp["input"]
@@ -467,15 +499,10 @@ def replay(a, col):
     if isinstance(inp, dict) and "text" in inp:
         check_text(col, st, inp["text"])
     else:
-        s = inp["string"] if isinstance(inp, dict) else inp
-        pads = [tuple(inp["pad"])] if isinstance(inp, dict) and "pad" in inp else []
-        check_string(col, st, s, pads)
+        replay_is_url(col, st, rp["clause"], inp)
     d = st.dump()
-    # keep only this clause, and for is_url clauses only the very same input (options)
-    want = json.dumps(inp, sort_keys=True, ensure_ascii=True)
-    for k, lst in list(d["keep"].items()):
-        d["keep"][k] = [x for x in lst if x[2] == rp["clause"] and ("text" in x[5] or x[1] == want or "options" not in inp)]
     d["tot"] = {}
+    d["excs"] = {}
     emit(col, [d], only_clause=rp["clause"])
     col.rule = "replay"
     col.dump(a.out)
